@@ -47,14 +47,21 @@ impl Gen {
     fn inst(&mut self) -> dr::Instruction {
         self.next += 1;
         // any opcode anywhere: a dr::Module is plain data, the traversals and the assembler must not look at it
-        const OPS: [spirv::Op; 12] = [
-            spirv::Op::Nop, spirv::Op::Return, spirv::Op::Label, spirv::Op::Kill, spirv::Op::Function, spirv::Op::FunctionEnd,
-            spirv::Op::Capability, spirv::Op::Line, spirv::Op::Phi, spirv::Op::Branch, spirv::Op::TypeVoid, spirv::Op::Unreachable,
-        ];
-        // every third instruction repeats the previous one's opcode and operands (two equal neighbours: a traversal or an
-        // assembler that merges / skips repeated instructions is seen); identity for the comparison is the unique id
-        let k = if self.next % 3 == 0 { self.next - 1 } else { self.next };
-        dr::Instruction::new(OPS[(k as usize * 7 + 3) % OPS.len()], None, Some(self.next), vec![dr::Operand::LiteralBit32(k ^ 0x5555)])
+        // (the 12 structurally loaded ones first, then all 787 of the grammar in table order)
+        static OPS: std::sync::OnceLock<Vec<spirv::Op>> = std::sync::OnceLock::new();
+        let ops = OPS.get_or_init(|| {
+            let mut v = vec![
+                spirv::Op::Nop, spirv::Op::Return, spirv::Op::Label, spirv::Op::Kill, spirv::Op::Function, spirv::Op::FunctionEnd,
+                spirv::Op::Capability, spirv::Op::Line, spirv::Op::Phi, spirv::Op::Branch, spirv::Op::TypeVoid, spirv::Op::Unreachable,
+            ];
+            v.extend(crate::golden::golden().insts.iter().filter_map(|gi| spirv::Op::from_u32(gi.opcode as u32)));
+            v
+        });
+        // every fifth instruction (5 is coprime to 12 and to 799, so every opcode gets repeated) is an exact copy of the previous one, result id included (two identical neighbours: a
+        // traversal or an assembler that merges / skips a repeated instruction is seen); the comparison by id sequence
+        // still decides order and count
+        let k = if self.next % 5 == 0 { self.next - 1 } else { self.next };
+        dr::Instruction::new(ops[if k < 200 { (k as usize * 7 + 3) % 12 } else { k as usize % ops.len() }], None, Some(k), vec![dr::Operand::LiteralBit32(k ^ 0x5555)])
     }
     fn list(&mut self, n: usize) -> Vec<dr::Instruction> {
         (0..n).map(|_| self.inst()).collect()
